@@ -6,6 +6,8 @@ namespace OpcuaVerif.C31
 structure DState where
   g : Graph
   limit : Nat := 10
+  /-- a reference or node has been deleted in this case -/
+  deleted : Bool := false
 
 /-- ids: 1..30 nodes (namespace 1), 31..999 namespace-0 numeric ids, ≥ 1000 namespace-1 numeric ids
 (custom reference types), 9999 a namespace-0 id that is no reference type -/
@@ -105,12 +107,17 @@ def trTags (g : Graph) (start : Nat) (es : List Elem) (res : Except Status (List
     else if es.length = 3 then "len.3" else "len.4+"
   dedupStr ([st, len] ++ (if (nodeName? g.nodes start).isSome then walkTags g es [start] 0 else []))
 
+/-- translations over a graph from which something has been deleted -/
+def delTags (deleted : Bool) (es : List Elem) : List String :=
+  if !deleted then [] else
+  (if es.any (·.inverse) then ["after-del.inv"] else []) ++ (if es.any (fun e => !e.inverse) then ["after-del.fwd"] else [])
+
 def withTags (res : String) (tags : List String) : String :=
   if tags.isEmpty then res else res ++ " @@ " ++ ",".intercalate tags
 
 def dstep (s : DState) (toks : List String) : DState × String :=
   match toks with
-  | ["reset"] => ({ g := ⟨[], []⟩, limit := 10 }, "ok")
+  | ["reset"] => ({ g := ⟨[], []⟩, limit := 10, deleted := false }, "ok")
   | ["limit", l] =>
     -- operational limit max_nodes_per_translate_browse_paths_to_node_ids (10 after reset)
     match l.toNat? with
@@ -150,6 +157,27 @@ def dstep (s : DState) (toks : List String) : DState × String :=
       if s.g.refs.contains (a, ty, b) then (s, "ok") else
       ({ s with g := { s.g with refs := s.g.refs ++ [(a, ty, b)] } }, "ok")
     | _, _, _ => (s, "bad-op")
+  | ["delref", a, b, ty] =>
+    match a.toNat?, b.toNat?, ty.toNat? with
+    | some a, some b, some ty =>
+      if !idOk a ∨ !idOk b ∨ !idOk ty ∨ ty = hasSubtype then (s, "bad-op") else
+      let r := deleteRef s.g a ty b
+      let others := s.g.refs.any fun e => e.1 = a ∧ e.2.2 = b ∧ e.2.1 ≠ ty
+      let back := s.g.refs.any fun e => e.1 = b ∧ e.2.2 = a
+      ({ s with g := r.1, deleted := true }, s!"ok {boolStr r.2} @@ " ++ ",".intercalate
+        ([if r.2 then "d.ref.hit" else "d.ref.miss"] ++
+         (if r.2 then [if others then "d.ref.parallel-remains" else "d.ref.last-of-pair"] else []) ++
+         (if r.2 ∧ back then ["d.ref.opposite-exists"] else [])))
+    | _, _, _ => (s, "bad-op")
+  | ["delnode", id, dtr] =>
+    match id.toNat?, parseBool? dtr with
+    | some id, some dtr =>
+      if id = 0 ∨ id > 30 then (s, "bad-op") else
+      let r := deleteNode s.g id dtr
+      let ex := (nodeName? s.g.nodes id).isSome
+      ({ s with g := r.1, deleted := true }, s!"ok {boolStr r.2} @@ d.node{boolStr dtr}." ++
+        (if !ex then "missing" else if (aggChildren s.g id).isEmpty then "leaf" else "parent"))
+    | _, _ => (s, "bad-op")
   | ["tr", start, es] =>
     match start.toNat? with
     | some start =>
@@ -161,8 +189,8 @@ def dstep (s : DState) (toks : List String) : DState × String :=
       else match parseElems es with
         | some es =>
           (match translate s.g start es with
-           | .ok ns => (s, withTags ("ok Good " ++ natList (sortNat ns)) (trTags s.g start es (.ok ns)))
-           | .error st => (s, withTags ("ok " ++ showStatus st) (trTags s.g start es (.error st))))
+           | .ok ns => (s, withTags ("ok Good " ++ natList (sortNat ns)) (trTags s.g start es (.ok ns) ++ delTags s.deleted es))
+           | .error st => (s, withTags ("ok " ++ showStatus st) (trTags s.g start es (.error st) ++ delTags s.deleted es)))
         | none => (s, "bad-op")
     | none => (s, "bad-op")
   | _ => (s, "bad-op")
